@@ -16,16 +16,16 @@ CHECKS = {
 
 CHECKS.update({
  "C01": ("vsched", "stateless model checking of the real actor loop: deviation-bounded DFS over task-level schedules x scenario grid, trace-automaton oracle",
-   "For each scenario (Send / thread-local actor x spawn variant x callback program incl. Err/panic/self-kill x exit cause x racing senders, child exit, pg event) every task-level schedule with at most 2 (quick) / 3 (thorough, core set) deviations from the FIFO default is executed on the real code; a per-actor automaton over the Enter/Tick/Exit/Cancelled trace decides overlap, order, once-ness and the post_stop rules.",
-   "task granularity (switches only where a task blocks, finishes or spawns); default build only", "DESIGN.md section 5 C01"),
+   "For each scenario (Send / thread-local actor x spawn variant x callback program incl. Err/panic/self-kill x exit cause incl. a stopper, a drainer and a killer racing x racing senders, child exit, two pg events) every task-level schedule with at most 2 (quick) / 3 (thorough, core set) deviations from the FIFO default is executed on the real code; a per-actor automaton over the Enter/Tick/Exit/Cancelled trace decides overlap, order, once-ness and the post_stop rules.",
+   "task granularity (switches only where a task blocks, finishes or spawns) plus fine/ units with a decision point at every atomic / lock / map / channel step of the actor task and the racing closers; builds: default (callbacks in the explicit fn -> impl Future form, invocation logged synchronously) and async-trait + cluster + monitors", "DESIGN.md section 5 C01"),
  "C02": ("vsched", "stateless model checking of the real send path: exhaustive DFS with sleep sets (2 senders) + deviation-bounded DFS, ledger and real-time-order oracle",
    "Senders, a closer (none/stop/kill/drain/exit path) and the real mailbox or real consumer actor; a decision point before every atomic, lock and channel operation of senders and closer. 2x1 cores are explored completely, larger ones up to a deviation bound.",
    "sequential consistency; tokio channel operations atomic; 2-3 senders x 1-2 messages", "DESIGN.md section 5 C02"),
  "C03": ("vsched", "stateless model checking of the real actor loop: deviation-bounded DFS over the arrival point of kill/stop/supervision events, logical-time oracle",
    "The arrival of kill(), stop() and a supervision event (enqueued synchronously through a pg monitor) relative to every callback of the actor is explored by schedule enumeration; the oracle compares the logical time of callback Enter/Tick/Exit events with the return time of the request.",
-   "task granularity: the pick in listen_in_priority and the first poll of the chosen callback are one step", "DESIGN.md section 5 C03"),
+   "task granularity, plus fine/ units (decision point at every atomic / lock / map / channel step of the actor task and the closers) for the windows inside one poll", "DESIGN.md section 5 C03"),
  "C04": ("vsched", "stateless model checking + crash-point enumeration (task dropped before its k-th poll, all k) on the real code, supervisor-log oracle",
-   "Failure site x Err/panic x exit cause x actor kind x busy/idle supervisor, plus every abort point of the actor task, each under a deviation-bounded schedule DFS; the supervisor's log must hold [Started?] + exactly one correctly classified terminal event; bystander and stranger undisturbed; join handle completes.",
+   "Failure site x Err/panic x exit cause (incl. racing stop/drain/kill) x actor kind x idle / busy / draining supervisor, a monitoring bystander in the monitors build, plus every abort point of the actor task, each under a deviation-bounded schedule DFS; the supervisor's log must hold [Started?] + exactly one correctly classified terminal event; bystander and stranger undisturbed; join handle completes.",
    "task granularity; thread-local actors never carry state (documented)", "DESIGN.md section 5 C04"),
  "C06": ("vsched", "stateless model checking at sync-operation granularity of the real exit path vs. waiters; hang detection by the scheduler",
    "Actor A (named, pg member and monitor, one child, supervised) exits by stop/kill/drain/Err/panic/abort while four waiters (parked before, two concurrent, one after) use wait/*_and_wait/join handle; decision points before every atomic, lock, map, notify and channel operation of the waiters and of A's task; snapshots of status/registry/pg/tree at the instant each wait returns; lost wake-ups surface as a scheduler-proved hang.",
@@ -34,11 +34,11 @@ CHECKS.update({
 
 CHECKS.update({
  "C05": ("vsched", "stateless model checking: exhaustive/bounded DFS at lock-operation granularity of link/unlink/relink vs. the real exit path, plus task-level DFS over real supervision trees with structural invariants evaluated at every scheduling step",
-   "Core: link, relink, unlink, a second link and a child exit race the real exit path on real cells (complete tree for two tasks, deviation-bounded for three). Live: chain/fan/bushy trees with Send and thread-local children, one node exits by stop/kill/Err/panic while another task spawns under it, links into it, relinks or unlinks a child; invariants (one supervisor, mirrored child set, stopped actors have neither) at every step, subtree death and no-running-orphan at quiescence.",
+   "Core: link, relink, unlink, a second link and a child exit race the real exit path on real cells, with an exiting and with a surviving supervisor (complete tree for two tasks, deviation-bounded for three). Live: chain/fan/bushy trees with Send and thread-local children, one node exits by stop/kill/Err/panic/task cancellation while another task spawns under it, links into it, relinks or unlinks a child; invariants (one supervisor, mirrored child set, stopped actors have neither) at every step, subtree death and no-running-orphan at quiescence. Start-up exits (pre_start Err/panic, dropped spawn future, supervisor gone) of an actor that linked a two-level subtree in pre_start, and instant-spawned children that are still Unstarted when their supervisor exits.",
    "sequential consistency; trees up to 5 nodes / depth 3; invariants are evaluated at step boundaries only", "DESIGN.md section 5 C05"),
  "C10": ("vsched", "stateless model checking of the real registry: exhaustive DFS with sleep sets on real cells + deviation-bounded DFS on real spawns/exits/respawns",
-   "Concurrent registrations of one name, lookups, the holder's exit path and respawns with a decision point before every DashMap, lock and atomic operation; oracle: one holder at a time, losers fail with ActorAlreadyRegistered leaving nothing, lookups return only a current holder and never one whose wait() returned, the name is reusable after wait().",
-   "sequential consistency; DashMap accesses atomic (shards held across points are waited for); pid registry checked in the cluster harness", "DESIGN.md section 5 C10"),
+   "Concurrent registrations of one name (plain and linked spawns), lookups, the holder's exit path, respawns, and failed instant starts whose handle is held by a status poller, with a decision point before every DashMap, lock and atomic operation; oracle: one holder at a time, losers fail with ActorAlreadyRegistered leaving nothing, lookups return only a current holder and never one whose wait() returned, the name is reusable after wait().",
+   "sequential consistency; DashMap accesses atomic (shards held across points are waited for); the pid table is checked on the cluster build of the harness (alt/ units)", "DESIGN.md section 5 C10"),
  "C11": ("vsched", "stateless model checking of the real pg module: exhaustive DFS with sleep sets (join vs exit) + deviation-bounded DFS (3 tasks), snapshot + port-reading oracle",
    "2-3 tasks run the real join/leave/monitor/demonitor/query functions and the real exit cleanup on shared groups and scopes; a decision point before every DashMap, lock, atomic and supervision-port operation; oracle: stopped actors are nowhere, scope index / reverse index / listener tables agree with the forward map, all six query functions agree, each get_members result is explained by an instant of its call, monitors saw every effective change with the right payload and nobody else saw anything.",
    "sequential consistency; DashMap iter() modelled as an atomic snapshot; redundant notifications for no-op calls are not flagged; delivery order between different calls is not demanded", "DESIGN.md section 5 C11"),
@@ -46,43 +46,43 @@ CHECKS.update({
 
 CHECKS.update({
  "C08": ("vsched", "stateless model checking + cut-point enumeration (spawn future dropped / instant task aborted before its k-th poll, all k) on the real spawn paths, residue-snapshot oracle",
-   "Send and thread-local actors x spawn / spawn_linked / spawn_instant / spawn_linked_instant x failure cause (pre_start Err or panic, name taken, killed during start-up, supervisor draining or stopping, start future dropped at every poll, instant task aborted at every poll) x side effect performed by pre_start (group joins, monitors, link under another supervisor, linked child, casts, a call queued from outside); each under a deviation-bounded schedule DFS; at quiescence nothing of the actor is left: status Stopped, waits return, name reusable, no pg trace, in no child set, no supervision event, queued calls fail.",
+   "Send and thread-local actors x spawn / spawn_linked / spawn_instant / spawn_linked_instant x failure cause (pre_start Err or panic, name taken, killed during start-up, supervisor draining or stopping, start future dropped at every poll, instant task aborted at every poll) x side effect performed by pre_start (group joins, monitors, link under another supervisor, linked child, casts, a call queued from outside) or by an outsider task (join / monitor / link from outside at map / lock / atomic granularity); each under a deviation-bounded schedule DFS; at quiescence nothing of the actor is left: status Stopped, waits return, name reusable, no pg trace, in no child set, no supervision event, queued calls fail.",
    "task granularity; a cut landing after post_start began is treated as a running actor that must work and clean up normally", "DESIGN.md section 5 C08"),
  "C09": ("vsched", "stateless model checking of call / multi_call / call_and_forward on the real code with a virtual clock (timer ties explored), reply-provenance oracle",
-   "1-3 concurrent callers x callee behaviour x callee exit landing anywhere by schedule x timeout relation; Success(v) only with the value sent on that call's own port, every call returns (a stuck caller is a scheduler-proved hang), completion <= T and == T for Timeout, multi_call in request order, forward exactly once iff the call succeeded.",
+   "1-3 concurrent callers x callee behaviour (incl. a handler that never returns) x callee exit landing anywhere by schedule (incl. stop-then-kill, drain-then-kill) x timeout relation (incl. T = 0); Success(v) only with the value sent on that call's own port, every call returns (a stuck caller is a scheduler-proved hang), completion <= T and == T for Timeout, multi_call in request order, forward exactly once iff the call succeeded.",
    "task granularity; zero-cost computation on the virtual clock", "DESIGN.md section 5 C09"),
  "C12": ("vsched", "stateless model checking on a virtual clock: deviation-bounded DFS over same-instant ties, exact-timestamp oracle",
-   "send_after / send_interval / exit_after / kill_after with periods {0,1,5} ms, target exit and handle abort before / exactly at / after the expiry, message construction that burns half a period (exposes drift); same-instant ties between the timer, an unrelated ready task and the exit are explored.",
+   "send_after / send_interval / exit_after / kill_after with periods from 0 and 1 us to 5 ms, target exit and handle abort (incl. before the timer task ever ran, and of interval / exit_after / kill_after handles) before / exactly at / after the expiry, message construction that burns half a period (exposes drift); same-instant ties between the timer, an unrelated ready task and the exit are explored.",
    "the seam's Interval (next_tick += period) replaces tokio's Interval: the no-drift clause is decided for time.rs's loop on top of it, not for tokio's timer wheel", "DESIGN.md section 5 C12"),
  "C16": ("vsched", "stateless model checking of the real forwarding tasks for both port implementations (two builds), per-subscriber sequence oracle",
-   "A publisher sends 0..N with five subscribers (from the start, late at chosen points, filtering converter, self-stopping, slow) on the default port and on output-port-v2; deviation-bounded DFS over task-level schedules; order, no duplicates, completeness where no lag is possible, survivors unaffected, a lagging default-port subscriber still receives the newest publications.",
+   "A publisher sends 0..N with five or six subscribers (from the start, late at chosen points, filtering converter, self-stopping, slow, created by spawn_instant and subscribed before its start-up ran) on the default port and on output-port-v2; deviation-bounded DFS over task-level schedules; order, no duplicates, completeness where no lag is possible, survivors unaffected, a lagging default-port subscriber still receives the newest publications.",
    "tokio broadcast trusted as atomic steps; the v2 build is a second harness binary built with ractor/output-port-v2", "DESIGN.md section 5 C16"),
 })
 
 CHECKS.update({
  "C13": ("vsched", "exhaustive enumeration of bounded event histories on a real Factory x deviation-bounded schedule DFS, per-job fate ledger",
-   "Every history up to depth 4 (quick; 3 on secondary configurations) / 6 (thorough) over dispatch / complete / die (panic, Err, kill, kill right after Finished) / resize / drain / advance on a real factory with gate-controlled real workers, for 7 routing modes x discard settings; schedules of the runs between events are explored with one deviation where deaths race with the factory. Oracle: each job is handled once, or refused once with an applicable reason, or lost with a dying worker (at most one per death); nothing is handled twice, handled and discarded, or missing while workers are healthy.",
+   "Every history up to depth 4 (quick; 3 on secondary configurations) / 6 (thorough) over dispatch / complete / die (panic, Err, kill, kill right after Finished) / resize / drain / advance on a real factory with gate-controlled real workers, for 7 routing modes x discard settings, plus focused alphabets at greater depth: reduced deaths (depth 5), bursts (a request right behind the previous one), three keys of plain job flow (depth 6), limit changes, priority queues, rate-limited routers, a worker lingering in post_stop, a worker dying inside the factory's own handler (kill armed in the discard callback), deaths at the granularity of channel operations; schedules of the runs between events are explored with one deviation where deaths race with the factory. Oracle: each job is handled once, or refused once with an applicable reason, or lost with a dying worker (at most one per death, and only if its drop — jobs carry drop guards — precedes the replacement); nothing is handled twice, handled and discarded, or missing while workers are healthy.",
    "task granularity; 2 keys, 2 initial workers (1..3 after resizes), default queue; one recorded known finding (stale Finished after replacement)", "DESIGN.md section 5 C13-C15"),
  "C14": ("vsched", "exhaustive enumeration of bounded event histories on a real Factory x deviation-bounded schedule DFS, routing monitors",
-   "Same history sweep; monitors: no two workers run the same key at once (key-persistent, sticky), key-persistent keeps submission order per key, every chosen worker index is inside the pool whatever the custom hash returns (const, identity, usize::MAX), round robin spreads the first n jobs over n workers, queuer never leaves a job waiting while a worker is idle (probed at quiescence), one job at a time per worker.",
+   "Same history sweep; monitors: no two workers run the same key at once (key-persistent, sticky), key-persistent keeps submission order per key, every job routed by custom hashing or round robin runs on a worker below the pool size requested last before its dispatch, whatever the hash returns (const, identity, usize::MAX), round robin spreads the first n jobs over n workers, queuer never leaves a job waiting while a worker is idle (probed at quiescence), one job at a time per worker.",
    "task granularity; one recorded known finding (stale Finished after replacement)", "DESIGN.md section 5 C13-C15"),
  "C15": ("vsched", "exhaustive enumeration of bounded event histories on a real Factory (7 discard settings x 7 routing modes) + exhaustive operation-sequence enumeration of the leaky bucket against a token-bucket reference on the virtual clock",
-   "Queue bound after every processed dispatch, each shed job reported once with Loadshed, pool size converges to the last requested size with dead workers replaced, DrainRequests refuses new jobs / finishes accepted ones / stops the factory / runs hooks in order; leaky bucket: all sequences of length 5 (quick) / 7 (thorough) over {admit, check, advance by 0 / interval-1ns / interval / 2.5 intervals} for 256 parameter tuples (refill 0,1,2,MAX; interval 0,1ns,1ms,MAX; max 0,1,3,MAX; initial None,0,1,5).",
-   "task granularity; one recorded known finding (a replaced draining worker is never removed)", "DESIGN.md section 5 C13-C15"),
+   "Queue bound after every processed dispatch (factory queue and, where all waiting jobs are bound for one worker, the worker queue; under limit changes the limit in effect), which job is shed (newest = the one being dispatched, oldest = longest waiting of the lowest priority class), each shed job reported once with Loadshed, a leaky bucket in front of the router never hands out more jobs than its tokens, pool size converges to the last requested size with dead workers replaced, DrainRequests refuses new jobs / finishes accepted ones / stops the factory / runs hooks in order; leaky bucket: all sequences of length 5 (quick) / 7 (thorough) over {admit, check, advance by 0 / interval-1ns / interval / 2.5 intervals} for 256 parameter tuples (refill 0,1,2,MAX; interval 0,1ns,1ms,MAX; max 0,1,3,MAX; initial None,0,1,5).",
+   "task granularity; two recorded known findings (a replaced draining worker is never removed; stale Finished after replacement, seen through draining) and one repaired defect (Oldest limit skipped for a parked job)", "DESIGN.md section 5 C13-C15"),
 })
 
 CHECKS.update({
  "C17": ("vsched+enum", "explicit-state enumeration of all input sequences through the real authentication state machines against a reference table + stateless model checking of real NodeServer sessions fed every frame sequence over an in-memory pipe",
-   "All sequences of 5 (quick) / 6 (thorough) symbols over 13 symbols through ServerAuthenticationProcess / ClientAuthenticationProcess::next, with a peer that knows the cookie and one that does not: Ok only along the honest path, Close absorbing, anything else closes. Real sessions (accepting and dialling) receive every sequence of 3 (quick) / 4 (thorough) frames from a 14-symbol alphabet: no local actor handles anything, no proxy is created, pg is unchanged, the session is not listed, a bad authentication message stops it; then the honest (and a wrong-cookie) handshake, after which only the advertised remotable actor receives casts/calls.",
+   "All sequences of 5 (quick) / 6 (thorough) symbols over 18 symbols (right / wrong / empty / truncated / over-long digests) through ServerAuthenticationProcess / ClientAuthenticationProcess::next, with a peer that knows the cookie and one that does not: Ok only along the honest path, Close absorbing, anything else closes. Real sessions (accepting and dialling) receive every sequence of 3 (quick) / 4 (thorough) frames from a 15-symbol alphabet (incl. an authentication message with an unset oneof): no local actor handles anything, no proxy is created, pg is unchanged, the session is not listed, a bad authentication message stops it; then the honest (and a wrong-cookie) handshake, after which only the advertised remotable actor receives casts/calls.",
    "digests are not inverted (a peer without the cookie computes digests with another cookie); session runs use the default schedule (deviation bound 0 for the frame sweep, 1-2 for the handshake runs)", "DESIGN.md section 5 C17"),
  "C18": ("vsched+enum", "exhaustive enumeration through the real elect_sessions + stateless model checking of two real NodeServers joined by in-memory pipes",
-   "Both name orders x every multiset of up to 3 (quick) / 4 (thorough) connections x every actor-id assignment at both nodes x every examination order: order independence, a common survivor, exactly one and the same when distinguishable, exactly one on the accepting side of a tie. Two real nodes: simultaneous dial, two and three dials, an unauthenticated connection claiming the peer's name; each node ends with exactly one listed, ready session over the same pipe and the spoof neither displaces nor joins it.",
+   "Both name orders x every multiset of up to 3 (quick) / 4 (thorough) connections x every actor-id assignment at both nodes x every examination order: order independence, a common survivor, exactly one and the same when distinguishable, exactly one on the accepting side of a tie. Two real nodes: simultaneous dial, two and three dials, an unauthenticated connection claiming the peer's name after and BEFORE the honest link; one real node against a peer played by the harness that knows the cookie and chooses its connection ids (legacy 0, repeated ids, stalled same-id claims; both completion orders; several hash seeds); each node ends with exactly one listed, ready session over the same pipe, exactly one running session actor that considers itself authenticated, and the spoof neither displaces nor joins it.",
    "a link that became ready and is then superseded is reported ready and then disconnected (the repository's own tests accept that); both nodes share one process", "DESIGN.md section 5 C18"),
  "C19": ("enum+vsched", "exhaustive bounded enumeration of byte streams / fragmentations / argument strings through the real frame reader and generated decoders, round trips over boundary values, plus schedule-explored live actors",
-   "Every byte stream of length <= 7 (quick) / 9 (thorough) over {00,01,08,7f,80,ff} through the real frame reader with a 16-byte limit (reads are counted: nothing is requested after an oversized header, never more than a chunk), boundary headers x payload x fragmentation, every fragmentation of valid frames with a Pending before each read, every argument string of length <= 6 / 8 over 5 symbols (+ length-prefix shapes) x 11 variant tags x cast/call through the derived decoders, every BytesConvertable type over boundary values, job metadata strings; real Send and thread-local actors receiving undecodable payloads keep running.",
+   "Every byte stream of length <= 7 (quick) / 9 (thorough) over {00,01,08,7f,80,ff} through the real frame reader with a 16-byte limit (reads are counted: nothing is requested after an oversized header, never more than a chunk), boundary headers x payload x fragmentation, every fragmentation of valid frames with a Pending before each read, every argument string of length <= 6 / 8 over 5 symbols (+ length-prefix shapes) x 11 variant tags x cast/call through the derived decoders, every BytesConvertable type over boundary values, job metadata strings; an accepted payload is framed exactly (no trailing bytes); real Send and thread-local actors receiving undecodable payloads keep running; real sessions on a node with a 64-byte inbound limit close on an oversized header without waiting for a payload.",
    "bounded lengths and alphabets chosen from the decoders' branch conditions; prost trusted beyond totality; one fixed finding (thread-local actors)", "DESIGN.md section 5 C19"),
  "C20": ("vsched", "stateless model checking of two real NodeServers over an in-memory pipe with explored transport read sizes",
-   "Session ready, then 2 senders x 2 casts and 3 concurrent calls (one abandoned, replies leaving out of request order) through the remote reference, group leave / re-join, then the original stops or the link closes; read size in {all, 1, 7 bytes}; schedules explored with deviation bound 1 (quick) / 2 (thorough) from the first remote send.",
+   "Session ready, then 2 senders x 2 casts and 3 concurrent calls (one abandoned, replies leaving out of request order) through the remote reference, group leave / re-join, an abandoned call followed by another, an actor appearing after ready, then the original stops or the link closes; read size in {all, 1, 7 bytes}; links with transit time on the virtual clock (timed-out calls whose answer arrives late); an actor spawned at a schedule-chosen moment of the session set-up and an actor stopping itself while casts are under way, both with decision points at the registries' map operations; schedules explored with deviation bound 1 (quick) / 2 (thorough) from the first remote send.",
    "both nodes share one process-wide registry and pg; no real TCP/TLS", "DESIGN.md section 5 C20"),
 })
 
